@@ -456,6 +456,7 @@ func c06MethodFacts(info vgirpc.VerifC04Method) []string {
 
 func c06Exec(c *Case) {
 	c06Setup()
+	famResetShared()
 	for _, l := range c.Lines {
 		call, err := c06ParseLine(l)
 		if err != nil {
